@@ -1,5 +1,6 @@
 import TF.Drv.Proto
 import TF.Model.BFieldMore
+import TF.Gen.FieldLoops
 /-! driver handlers for the C01 growth ops of the families `bfe` and `xfe` (called from `TF/Drv/BField.lean`) -/
 namespace TF.Drv.BFieldMore
 open TF.Proto TF.Gen TF.Model
@@ -104,9 +105,16 @@ def xfeMore : Handler
       pure (match XF.cyclicGroup n a none with | some _ => "ok:stopped" | none => "ok:running")
   | "batchinv", [xs] => do
       let l ← xs.tripleList?
-      pure (match XF.batchInversion l with
+      -- `FiniteField::batch_inversion` as regenerated from source over an abstract field (P10), at the extension field's operations
+      let gok := Loops.ff_batch_inversion_ok XF.zero XF.one XF.mul XF.isZero (fun x => (XF.inverse x).getD XF.zero)
+        (fun x => (XF.inverse x).isSome) XF.zero l
+      let g := Loops.ff_batch_inversion XF.zero XF.one XF.mul XF.isZero (fun x => (XF.inverse x).getD XF.zero)
+        (fun x => (XF.inverse x).isSome) XF.zero l
+      let model := match XF.batchInversion l with
         | some r => "ok:" ++ fmtTripleList r
-        | none => "panic")
+        | none => "panic"
+      let gen := if gok then "ok:" ++ fmtTripleList g else "panic"
+      pure (if gen == model then model else "GEN-MISMATCH gen=" ++ gen ++ " model=" ++ model)
   | _, _ => none
 
 end TF.Drv.BFieldMore
